@@ -68,6 +68,20 @@ impl<T, B> KvxMapped<T, B> {
                 forall|i: int| 0 <= i < r.1@.len() ==> g.ensures((&#[trigger] r.1@[i],), false) && kvx_from_src(self.src(), self.rel(), r.1@[i]),
                 forall|j: int| 0 <= j < self.src().len() ==> kvx_into_parts(self.rel(), #[trigger] self.src()[j], r.0@, r.1@) { unimplemented!() }
 }
+// `.filter(p)` between map and partition: some of the mapped elements (which ones is the predicate's business) — the parts then
+// still come from the source, but nothing says every source element is represented
+#[verifier::external_body] #[verifier::reject_recursive_types(T)] #[verifier::reject_recursive_types(B)] pub struct KvxFiltered<T, B> { p: core::marker::PhantomData<(T, B)> }
+impl<T, B> KvxFiltered<T, B> {
+    pub uninterp spec fn src(&self) -> Seq<T>;
+    pub uninterp spec fn rel(&self) -> spec_fn(T, B) -> bool;
+    #[verifier::external_body] pub fn partition<G: Fn(&B) -> bool>(self, g: G) -> (r: (Vec<B>, Vec<B>))
+        requires forall|o: B| #[trigger] g.requires((&o,))
+        ensures forall|i: int| 0 <= i < r.0@.len() ==> g.ensures((&#[trigger] r.0@[i],), true) && kvx_from_src(self.src(), self.rel(), r.0@[i]),
+                forall|i: int| 0 <= i < r.1@.len() ==> g.ensures((&#[trigger] r.1@[i],), false) && kvx_from_src(self.src(), self.rel(), r.1@[i]) { unimplemented!() }
+}
+impl<T, B> KvxMapped<T, B> {
+    #[verifier::external_body] pub fn filter<P: Fn(&B) -> bool>(self, p: P) -> (r: KvxFiltered<T, B>) ensures r.src() == self.src(), r.rel() == self.rel() { unimplemented!() }
+}
 #[verifier::external_body] pub fn kvx_map_vec<T, B, F: Fn(&T) -> B>(v: &Vec<T>, p: Ghost<spec_fn(T, B) -> bool>, f: F) -> (r: KvxMapped<T, B>)
     requires forall|i: int| 0 <= i < v@.len() ==> f.requires((&#[trigger] v@[i],)),
              forall|x: &T, o: B| #[trigger] f.ensures((x,), o) ==> p@(*x, o),
